@@ -16,7 +16,7 @@
 //@rule REFPAT :: Some\(\(&key, action\)\) :: Some((key, action)) :: R4 ref pattern unsupported by Verus
 //@rule REFUSE :: break Some\(key\) :: break Some(*key) :: R4
 //@rule EXECMUT :: &self\.executor\b :: &mut self.executor :: R2 executor handle made exclusive so that it can carry the ghost task log
-//@rule MAPUNIT :: \.map\(\|_\| \(\)\) :: .map(|_x| ()) :: R14 wildcard closure parameter unsupported by Verus
+//@rule MAPUNIT :: \|_\| :: |_x| :: R14 wildcard closure parameter unsupported by Verus
 //@rule PUBSTRUCT :: ^(\s*)(?:pub(?:\(crate\))? )?struct :: \1pub struct :: R7
 //@rule PUBTUPLE :: \(usize\); :: (pub usize); :: R7
 //@rule QUEUEFIELD :: Arc<Mutex<SchedulerQueue>> :: SchedulerQueue :: R2
@@ -29,7 +29,11 @@
 //@rule ASSERTNE :: assert_ne!\(id, usize::MAX\); :: if id == usize::MAX { vpanic(); } :: R6 panics are divergence
 //@rule LAGCMP :: if &lag > tolerance :: if dur_gt(&lag, tolerance) :: R16 comparison of std Durations through a specified stub
 //@rule ARMBRACE :: None => return Ok\(None\), :: None => { return Ok(None) } :: R17 braces around a match-arm expression so that a proof block can precede it
+//@rule HOOK :: #\[cfg\(asynchronix_verif\)\]\s*crate::verif_hooks::pause_point\([^)]*\); ::  :: R19 verification-only pause points are no-ops without an installed callback
+//@rule LOCK2 :: let scheduler_queue = self\.scheduler_queue\.lock\(\)\.unwrap\(\); :: lock_queue(&mut self.scheduler_queue, &self.time); :: R1b
+//@rule GUARDPEEK :: \bscheduler_queue\.peek\(\) :: self.scheduler_queue.peek() :: R1b
 //@rule IMPLDL :: deadline: impl Deadline :: deadline: impl Deadline :: R14 (kept as is)
+//@pyrule GUARD :: inline_guard(scheduler_queue ;; self.scheduler_queue ;; lock_queue(&mut self.scheduler_queue, &self.time); ;; unlock_queue(&mut self.scheduler_queue, &self.time);) :: R1b/R13 the guard variable is the locked queue itself; lock()/drop() become stub calls (functional pass: no interference; monitor pass: havoc)
 //@pyrule PUBFIELDS :: pub_fields() :: R7
 //@pyrule RET :: name_ret(res) :: R17 result named so that the contract can mention it
 //@pyrule RETACTION :: name_ret(action ;; pull_next_action) :: R17
@@ -49,98 +53,7 @@ fn vpanic() -> ! { panic!() }
 
 //@include inc/time_stubs.rs
 
-pub enum SyncStatus { Synchronized, OutOfSync(Duration) }
-
-//@include inc/queue_stubs.rs
-
-// ---------- stubs for everything the kernel calls but this unit does not verify ----------
-#[verifier::external_body]
-pub struct Executor { x: u8 }
-#[verifier::external_body]
-pub struct SeqFuture { x: u8 }
-#[verifier::external_body]
-pub struct AtomicTime { x: u8 }
-#[verifier::external_body]
-pub struct ClockBox { x: u8 }
-#[verifier::external_body]
-pub struct ObserverBox { x: u8 }
-#[verifier::external_body]
-pub struct Payload { x: u8 }
-
-impl Payload { pub uninterp spec fn is_send_error(&self) -> bool; }
-#[verifier::external_body]
-fn payload_is_send_error(p: &Payload) -> (r: bool) ensures r == p.is_send_error() { unimplemented!() }
-#[verifier::external_body]
-fn resume_unwind(p: Payload) -> ! { unimplemented!() }
-
-impl ObserverBox {
-    // ChannelObserver::len: the number of messages in the observed mailbox (C12 proves Queue::len)
-    pub uninterp spec fn spec_len(&self) -> usize;
-    #[verifier::external_body]
-    pub fn len(&self) -> (r: usize) ensures r == self.spec_len() { unimplemented!() }
-}
-
-impl ClockBox {
-    // the log of all times passed to Clock::synchronize
-    pub uninterp spec fn syncs(&self) -> Seq<u64>;
-    // the status returned by the most recent synchronize
-    pub uninterp spec fn last_status(&self) -> SyncStatus;
-    #[verifier::external_body]
-    pub fn synchronize(&mut self, t: MonotonicTime) -> (r: SyncStatus)
-        ensures final(self).syncs() == old(self).syncs().push(t.t), final(self).last_status() == r
-    { unimplemented!() }
-}
-impl AtomicTime {
-    pub uninterp spec fn val(&self) -> u64;
-    #[verifier::external_body]
-    pub fn write(&mut self, t: MonotonicTime)
-        ensures final(self).val() == t.t
-    { unimplemented!() }
-    #[verifier::external_body]
-    pub fn read(&self) -> (r: MonotonicTime)
-        ensures r.t == self.val()
-    { unimplemented!() }
-}
-impl SeqFuture {
-    // SeqFuture polls its futures strictly in push order (proved in unit seqfut)
-    pub uninterp spec fn aids(&self) -> Seq<int>;
-    #[verifier::external_body]
-    pub fn new() -> (r: Self) ensures r.aids() == Seq::<int>::empty() { unimplemented!() }
-    #[verifier::external_body]
-    pub fn push(&mut self, f: ActFut) ensures final(self).aids() == old(self).aids().push(f.aid()) { unimplemented!() }
-}
-#[derive(Copy, Clone)]
-//@item src=nexosim/src/simulation.rs kind=struct name=ModelId rules=PUBSTRUCT,PUBTUPLE
-pub struct ModelId(pub usize);
-//@end
-pub enum ExecutorError { UnprocessedMessages(usize), Timeout, Panic(ModelId, Payload) }
-impl Executor {
-    // log of the tasks handed to the executor: one Seq<aid> per task (a SeqFuture is a sequence)
-    pub uninterp spec fn spawned(&self) -> Seq<Seq<int>>;
-    // number of times Executor::run was entered (= the only way model code runs)
-    pub uninterp spec fn runs(&self) -> nat;
-    // number of models registered with ModelId (ids are issued by add_model, unit reg)
-    pub uninterp spec fn n_models(&self) -> nat;
-    #[verifier::external_body]
-    pub fn spawn_and_forget(&mut self, f: SeqFuture)
-        ensures final(self).spawned() == old(self).spawned().push(f.aids()), final(self).runs() == old(self).runs(),
-            final(self).n_models() == old(self).n_models(),
-    { unimplemented!() }
-    // assumption A-exec: runs every spawned task to quiescence at the current time; may return any error
-    #[verifier::external_body]
-    pub fn run(&mut self, timeout: Duration) -> (r: Result<(), ExecutorError>)
-        ensures final(self).spawned() == old(self).spawned(), final(self).runs() == old(self).runs() + 1,
-            final(self).n_models() == old(self).n_models(),
-            r matches Err(ExecutorError::Panic(id, _p)) ==> id.0 == usize::MAX || id.0 < final(self).n_models(),
-    { unimplemented!() }
-}
-impl Action {
-    #[verifier::external_body]
-    pub fn spawn_and_forget(self, e: &mut Executor)
-        ensures final(e).spawned() == old(e).spawned().push(seq![self.aid()]), final(e).runs() == old(e).runs(),
-            final(e).n_models() == old(e).n_models(),
-    { unimplemented!() }
-}
+//@include inc/kernel_stubs.rs
 
 // Critical sections of Mutex<SchedulerQueue>. Functional pass: no other thread touches the queue
 // (the monitor pass, unit simmon, replaces these two stubs by a havoc of the queue).
@@ -153,46 +66,7 @@ fn unlock_queue(q: &mut SchedulerQueue, time: &AtomicTime)
     ensures final(q).view() == old(q).view()
 { }
 
-//@item src=nexosim/src/simulation.rs kind=struct name=Simulation rules=PUBSTRUCT,QUEUEFIELD,CLOCKFIELD,OBSFIELD,PUBFIELDS
-pub struct Simulation {
-    pub executor: Executor,
-    pub scheduler_queue: SchedulerQueue,
-    pub time: AtomicTime,
-    pub clock: ClockBox,
-    pub clock_tolerance: Option<Duration>,
-    pub timeout: Duration,
-    pub observers: Vec<(String, ObserverBox)>,
-    pub model_names: Vec<String>,
-    pub is_terminated: bool,
-}
-//@end
-
-//@item src=nexosim/src/simulation.rs kind=struct name=DeadlockInfo rules=PUBSTRUCT
-pub struct DeadlockInfo {
-    pub model: String,
-    pub mailbox_size: usize,
-}
-//@end
-
-//@item src=nexosim/src/simulation.rs kind=enum name=ExecutionError rules=PAYLOAD
-pub enum ExecutionError {
-    Terminated,
-    Deadlock(Vec<DeadlockInfo>),
-    MessageLoss(usize),
-    NoRecipient {
-        model: Option<String>,
-    },
-    Panic {
-        model: String,
-        payload: Payload,
-    },
-    Timeout,
-    OutOfSync(Duration),
-    BadQuery,
-    InvalidDeadline(MonotonicTime),
-}
-//@end
-
+//@include inc/sim_types.rs
 //@include inc/sim_lemmas.rs
 //@include inc/sim_post.rs
 
@@ -432,7 +306,7 @@ impl Simulation {
 }
 
 impl Simulation {
-//@item src=nexosim/src/simulation.rs kind=fn name=step_to_next_bounded within=`impl Simulation` rules=GUARDTY,REFPAT,REFUSE,CLOSURE,BREAKVAL,LOCK,UNLOCK,GUARDUSE,EXECMUT,LAGCMP,ARMBRACE,RET,RETACTION,RETKEY
+//@item src=nexosim/src/simulation.rs kind=fn name=step_to_next_bounded within=`impl Simulation` rules=GUARDTY,REFPAT,REFUSE,CLOSURE,BREAKVAL,GUARD,MAPUNIT,EXECMUT,LAGCMP,ARMBRACE,RET,RETACTION,RETKEY
     fn step_to_next_bounded(
         &mut self,
         upper_time_bound: MonotonicTime,
@@ -892,7 +766,7 @@ impl Simulation {
     }
 //@end
 
-//@item src=nexosim/src/simulation.rs kind=fn name=step_until_unchecked within=`impl Simulation` rules=RET
+//@item src=nexosim/src/simulation.rs kind=fn name=step_until_unchecked within=`impl Simulation` rules=HOOK,GUARD,MAPUNIT,RET
     fn step_until_unchecked(&mut self, target_time: MonotonicTime) -> (res: Result<(), ExecutionError>)
         //@[
         requires
@@ -936,7 +810,11 @@ impl Simulation {
                 Ok(Some(t)) if t == target_time => return Ok(()),
                 // No actions are scheduled before or at the target time.
                 Ok(None) => {
-                    // Update the simulation time.
+                    // Update the simulation time. The scheduler queue must be
+                    // locked while the time is updated, and inspected again:
+                    // since the lock was released, a scheduler handle on another
+                    // thread may have scheduled an action due before the target
+                    // time, which was validated against the former time.
                     //@[
                     proof {
                         let q = self.scheduler_queue.view();
@@ -945,7 +823,18 @@ impl Simulation {
                         }
                     }
                     //@]
-                    self.time.write(target_time);
+                    lock_queue(&mut self.scheduler_queue, &self.time);
+                    let next_is_due = match self.scheduler_queue.peek() {
+                        Some((key, _)) => key.0 <= target_time,
+                        None => false,
+                    };
+                    if !next_is_due {
+                        self.time.write(target_time);
+                    }
+                    unlock_queue(&mut self.scheduler_queue, &self.time);
+                    if next_is_due {
+                        continue;
+                    }
                     self.clock.synchronize(target_time);
                     return Ok(());
                 }
